@@ -94,6 +94,114 @@ def unc_size(path):
     return len(b.getvalue().encode('utf8')), any(e.tag == 'EBUILD' for e in m.entries)
 
 
+def post_save_oracle(ctx, scen, root, top, before, after, wm):
+    """the statement of C13 about one save: every rewritten sub-Manifest stored compressed iff its uncompressed size >= watermark,
+    one file per logical Manifest, parents reference the new names, the tree verifies (with a fresh loader)"""
+    rewritten = [p for p in after if os.path.basename(p).startswith('Manifest') and before.get(p) != after.get(p)]
+    for p in rewritten:
+        fp = os.path.join(root, p)
+        if not os.path.isfile(fp):
+            continue
+        size, has_ebuild = unc_size(fp)
+        compressed = os.path.splitext(p)[1] in FORMATS[1:]
+        if p == 'Manifest':
+            continue                      # a top-level file literally named Manifest is never compressed implicitly
+        logical = p[:-len(os.path.splitext(p)[1])] if compressed else p
+        want = wm is not None and size >= wm   # (a top-level Manifest that IS compressed follows the watermark like any other)
+        if wm is not None and compressed != want:
+            ctx.fail('watermark-not-followed', dict(scen, manifest=p), f'size {size} watermark {wm} compressed {compressed}')
+        # exactly one file per logical Manifest
+        # (a second file for the same logical Manifest that was there BEFORE the update is prior state, not a failed rename)
+        def same_logical(q):
+            return q == logical or any(q == logical + s for s in FORMATS[1:])
+        prior = [q for q in before if same_logical(q)]
+        twins = [q for q in after if q != p and same_logical(q)]
+        # (several files for this logical Manifest BEFORE the update are prior state - the territory of finding F8 -,
+        # not a rename that left its old file behind)
+        if twins and len(prior) <= 1:
+            ctx.fail('two-files-for-one-manifest', dict(scen, manifest=p), str(twins))
+    # parents reference the new names, and the tree still verifies
+    problems, in_use = updimpl.exact_check(root, top, '', ['SHA1'])
+    v = treeimpl.verify_dir(root, top, '')
+    if problems or v.get('ret') is not True:
+        pp = sorted(set(p.split(':', 1)[1].split(':')[0].split(' in ')[0] for p in problems))
+        ctx.fail('not-exact-after-update', dict(scen, problem_paths=pp), '; '.join(problems[:4]) + ' ' + json.dumps(v)[:100])
+
+
+def session(ctx, drv):
+    """ONE loader object through 2-5 rounds of edits + update_entries_for_directory + save_manifests with changing watermarks,
+    formats, force and sort (what a long-running caller does): renames made by an earlier save (the top-level Manifest
+    included) must not derail a later one"""
+    rng = ctx.rng
+    root = common.scratch_dir('gv.c13s.')
+    try:
+        pl = gen_tree.gen_plan(rng, depth=rng.choice([1, 2, 3]), hostile=rng.random() < 0.4, max_files=3)
+        pl.no_conflicts = True
+        gen_tree.layout(pl, rng, p_dup=0.0, p_second=0.3, p_sub=0.7, p_third=0.5)
+        if rng.random() < 0.5 and pl.top == 'Manifest':
+            # a compressed top-level Manifest: falls below the watermark in some round and is renamed
+            fmt = rng.choice(FORMATS[1:])
+            pl.manifests['Manifest' + fmt] = pl.manifests.pop('Manifest')
+            pl.top = 'Manifest' + fmt
+        gen_tree.write_plan(pl, root)
+        base = {'hashes': ['SHA1']}
+        try:
+            l = updimpl.make_loader(root, pl.top, base)
+        except Exception as e:
+            ctx.count('session:cannot-open:' + treeimpl.classify(e)['err'])
+            return
+        reqs = []
+        top = pl.top
+        for rnd in range(rng.randint(2, 5)):
+            if rng.random() < 0.6:
+                gen_tree.mutate_tree(pl, rng, root, spare_manifests=True)
+            wm = rng.choice([0, 0, 60, 200, 10**9, 10**9, None])
+            kw = {'force': rng.random() < 0.6, 'sort': rng.random() < 0.5}
+            if wm is not None:
+                kw['compress_watermark'] = wm
+                kw['compress_format'] = rng.choice(['gz', 'bz2', 'lzma', 'xz'])
+            texts = c03.all_texts(root)
+            world = trees.world_of(root, {'SHA1'} | set(trees.hash_names_in(texts)))
+            before = updimpl.snapshot(root)
+            try:
+                with treeimpl.time_limit(10):
+                    l.update_entries_for_directory('')
+                    l.save_manifests(**kw)
+                impl = {'ok': True, 'top': l.top_level_manifest_filename}
+            except Exception as e:
+                impl = treeimpl.classify(e)
+            after = updimpl.snapshot(root)
+            post = updimpl.post_table(root, sorted({'SHA1'} | set(trees.hash_names_in(c03.all_texts(root)))))
+            reqs.append({'op': 'update', 'world': world, 'top': cps(pl.top), 'path': cps(''), 'create': False, 'xdev': True,
+                         'hashes': [cps('SHA1')], 'profile': 'default', 'last_mtime': None,
+                         'save': {'force': kw['force'], 'sort': kw['sort'], 'watermark': wm, 'format': cps(kw.get('compress_format', 'gz'))},
+                         'post': post, 'do_save': True})
+            rep = drv.ask({'op': 'session', 'rounds': reqs})['rounds']
+            scen = {'op': 'session', 'request': {'op': 'session', 'rounds': reqs}, 'round': rnd, 'options': [r['save'] for r in reqs]}
+            ctx.count('stream:session')
+            ctx.count('session-round:%d' % rnd)
+            ctx.count('session-impl:' + ('ok' if 'ok' in impl else impl['err']))
+            ctx.case(json.dumps(reqs, sort_keys=True)[:100000], True, {'round': rnd, 'save': [r['save'] for r in reqs], 'impl': impl})
+            if len(rep) == len(reqs) and rep[-1]['model'].get('err') != 'abstain':
+                c03.compare_with_disk(ctx, scen, root, before, after, rep[-1]['model'], impl)
+                # the state carried into the next round: the load order (save_manifests orders its work by it)
+                if 'ok' in impl and 'loaded' in rep[-1]['model']:
+                    lo_m = [uncps(kv[0]) for kv in rep[-1]['model']['loaded']]
+                    lo_i = list(l.loaded_manifests)
+                    if lo_m != lo_i:
+                        ctx.disagree('session(load order)', scen, {'loaded': lo_i}, {'loaded': lo_m})
+            if 'ok' not in impl:
+                if treeimpl.is_internal(impl):
+                    ctx.fail('internal-error', scen, impl['err'])
+                break
+            if impl['top'] != top:
+                ctx.count('session:top-level-renamed')
+            top = impl['top']
+            post_save_oracle(ctx, scen, root, top, before, after, wm)
+    finally:
+        trees.rmtree(root)
+
+
 def watermark(ctx, drv):
     rng = ctx.rng
     root = common.scratch_dir('gv.c13w.')
@@ -141,38 +249,7 @@ def watermark(ctx, drv):
                     ctx.fail('internal-error', scen, impl['err'])
                 break
             top = impl['top']
-            # every rewritten sub-Manifest: stored compressed iff its uncompressed size >= watermark
-            rewritten = [p for p in after if os.path.basename(p).startswith('Manifest') and before.get(p) != after.get(p)]
-            for p in rewritten:
-                fp = os.path.join(root, p)
-                if not os.path.isfile(fp):
-                    continue
-                size, has_ebuild = unc_size(fp)
-                compressed = os.path.splitext(p)[1] in FORMATS[1:]
-                if p == 'Manifest':
-                    continue                      # a top-level file literally named Manifest is never compressed implicitly
-                logical = p[:-len(os.path.splitext(p)[1])] if compressed else p
-                want = size >= wm and logical != 'Manifest'
-                if compressed != want:
-                    ctx.fail('watermark-not-followed', dict(scen, manifest=p), f'size {size} watermark {wm} compressed {compressed}')
-                # exactly one file per logical Manifest
-                # (a second file for the same logical Manifest that was there BEFORE the update is prior state, not a failed rename)
-                def same_logical(q):
-                    return q == logical or any(q == logical + s for s in FORMATS[1:])
-                prior = [q for q in before if same_logical(q)]
-                twins = [q for q in after if q != p and same_logical(q)]
-                # (several files for this logical Manifest BEFORE the update are prior state - the territory of finding F8 -,
-                # not a rename that left its old file behind)
-                if twins and len(prior) <= 1:
-                    ctx.fail('two-files-for-one-manifest', dict(scen, manifest=p), str(twins))
-            if top == 'Manifest' or not os.path.exists(os.path.join(root, 'Manifest.gz')):
-                pass
-            # parents reference the new names, and the tree still verifies
-            problems, in_use = updimpl.exact_check(root, top, '', ['SHA1'])
-            v = treeimpl.verify_dir(root, top, '')
-            if problems or v.get('ret') is not True:
-                pp = sorted(set(p.split(':', 1)[1].split(':')[0].split(' in ')[0] for p in problems))
-                ctx.fail('not-exact-after-update', dict(scen, problem_paths=pp), '; '.join(problems[:4]) + ' ' + json.dumps(v)[:100])
+            post_save_oracle(ctx, scen, root, top, before, after, wm)
     finally:
         trees.rmtree(root)
 
@@ -240,7 +317,10 @@ def run(ctx):
                 'give equal results across assignments; (b) watermark: generated layouts, watermark in {0, size-1, size, size+1, inf} '
                 'of an existing Manifest, every target format, forced and unforced saves, 1-4 rounds (re-compression both ways): each '
                 'rewritten sub-Manifest compressed iff uncompressed size >= watermark, top-level Manifest never, one file per logical '
-                'Manifest, exactness and verification afterwards; model correspondence byte for byte.')
+                'Manifest, exactness and verification afterwards; model correspondence byte for byte; (c) sessions: ONE loader object '
+                'through 2-5 rounds of edits + update + save with changing watermark / format / force / sort, the top-level Manifest '
+                'compressed in half of them (so that a save renames it): same oracle after every save, and the model run as one '
+                'state threaded through the rounds.')
     ctx.assumptions = ['codec round-trips are exercised, not proved']
     drv = common.Driver()
     try:
@@ -249,6 +329,8 @@ def run(ctx):
             transparency(ctx, drv)
         for i in range(350 if ctx.tier == 'quick' else 4000):
             watermark(ctx, drv)
+        for i in range(250 if ctx.tier == 'quick' else 3000):
+            session(ctx, drv)
     finally:
         drv.close()
 
